@@ -913,11 +913,17 @@ def reach_fields(e, env, depth=6):
     return out
 
 
-def reach_calls(e, env, depth=6):
+def reach_calls(e, env, depth=6, fn=None, envs=None):
     """Names of all functions / methods called on the way to the value of `e` (closure bodies included), through the initialisers of
-    the locals it mentions (bounded)."""
+    the locals it mentions (bounded) and -- when fn / envs are given -- through what is pushed / inserted / extended into a local
+    container it mentions (a vector filled by a loop depends on what the loop pushes)."""
     out = set()
     seen = set()
+    fills = {}
+    if fn is not None and envs is not None:
+        for c in walk(fn.body):
+            if c["k"] == "MethodCall" and c["method"] in ("push", "insert", "extend", "push_str", "push_back", "append") and c["recv"]["k"] in ("Path",):
+                fills.setdefault(c["recv"]["path"], []).append(c)
     work = [(e, env, depth)]
     while work:
         x, en, d = work.pop()
@@ -933,4 +939,7 @@ def reach_calls(e, env, depth=6):
                 df = en.get(n["path"])
                 if df is not None and df.init is not None:
                     work.append((df.init, df.env, d - 1))
+                for c in fills.get(n["path"], []):
+                    for a in c["args"]:
+                        work.append((a, envs.get(id(c)), d - 1))
     return out
